@@ -345,3 +345,134 @@ fn c19_canary() {
     let r = ManuallyDrop::new(parse_quantity(&mut it));
     assert!(!matches!(&*r, Ok(Some(CFormatQuantity::Amount(7)))));
 }
+
+/// One character of the specifier alphabet.
+fn any_spec_char() -> char {
+    let k: u8 = kani::any();
+    kani::assume(k < 13);
+    match k {
+        0 => '-',
+        1 => '+',
+        2 => ' ',
+        3 => '#',
+        4 => '0',
+        5 => '7',
+        6 => '*',
+        7 => '.',
+        8 => 'h',
+        9 => 'd',
+        10 => 's',
+        11 => 'x',
+        _ => 'z',
+    }
+}
+
+// @ob id=C19.k.spec_parse props=C19,C03 kind=bounded tier=quick timeout=600
+// @bound specifiers of at most 6 characters after the '%', over the alphabet - + space # 0 7 * . h d s x z (no mapping key)
+// @clause a conversion specifier is split as Python splits it: flags (any order, repetition) then width (digits or *) then optional .precision (digits, * or nothing = 0) then at most one length modifier then the conversion character; what follows is left unread; a missing conversion character is IncompleteFormat and an unsupported one UnsupportedFormatChar with its index
+// @fns CFormatSpec::parse parse_spec_mapping_key parse_flags parse_quantity parse_precision consume_length parse_format_type
+#[kani::proof]
+#[kani::unwind(9)]
+fn c19_spec_parse() {
+    let mut items = ['%'; N];
+    let len: usize = kani::any();
+    kani::assume(len <= 6);
+    for i in 0..6 {
+        if i < len {
+            items[i] = any_spec_char();
+        }
+    }
+    let mut it = stream(items, len);
+    let r = ManuallyDrop::new(CFormatSpec::parse(&mut it));
+    // ---- reference split, from the Python documentation of printf-style formatting
+    let at = |i: usize| if i < len { Some(items[i]) } else { None };
+    let mut i = 0usize;
+    let mut flags = CConversionFlags::empty();
+    for _ in 0..7 {
+        match at(i) {
+            Some('-') => { flags |= CConversionFlags::LEFT_ADJUST; i += 1; }
+            Some('+') => { flags |= CConversionFlags::SIGN_CHAR; i += 1; }
+            Some(' ') => { flags |= CConversionFlags::BLANK_SIGN; i += 1; }
+            Some('#') => { flags |= CConversionFlags::ALTERNATE_FORM; i += 1; }
+            Some('0') => { flags |= CConversionFlags::ZERO_PAD; i += 1; }
+            _ => {}
+        }
+    }
+    // width
+    let mut width: Option<Option<usize>> = None; // Some(None) = '*'
+    if at(i) == Some('*') {
+        width = Some(None);
+        i += 1;
+    } else {
+        let mut v = 0usize;
+        let mut any = false;
+        for _ in 0..7 {
+            match at(i) {
+                Some(c) if c == '0' || c == '7' => { v = v * 10 + (c as usize - '0' as usize); any = true; i += 1; }
+                _ => {}
+            }
+        }
+        if any { width = Some(Some(v)); }
+    }
+    // precision
+    let mut prec: Option<Option<Option<usize>>> = None; // Some(None) = bare '.', Some(Some(None)) = '.*'
+    if at(i) == Some('.') {
+        i += 1;
+        if at(i) == Some('*') {
+            prec = Some(Some(None));
+            i += 1;
+        } else {
+            let mut v = 0usize;
+            let mut any = false;
+            for _ in 0..7 {
+                match at(i) {
+                    Some(c) if c == '0' || c == '7' => { v = v * 10 + (c as usize - '0' as usize); any = true; i += 1; }
+                    _ => {}
+                }
+            }
+            prec = if any { Some(Some(Some(v))) } else { Some(None) };
+        }
+    }
+    if at(i) == Some('h') {
+        i += 1;
+    }
+    let conv = at(i);
+    match (&*r, conv) {
+        (Err((CFormatErrorType::IncompleteFormat, _)), None) => {}
+        (Err((CFormatErrorType::UnsupportedFormatChar(c), idx)), Some(k)) => {
+            assert!(*c == k && *idx == i);
+            assert!(!matches!(k, 'd' | 's' | 'x'));
+        }
+        (Ok(spec), Some(k)) => {
+            assert!(matches!(k, 'd' | 's' | 'x'));
+            assert!(spec.format_char == k);
+            assert!(spec.flags == flags);
+            assert!(spec.mapping_key.is_none());
+            match (&spec.min_field_width, width) {
+                (None, None) => {}
+                (Some(CFormatQuantity::FromValuesTuple), Some(None)) => {}
+                (Some(CFormatQuantity::Amount(a)), Some(Some(v))) => assert!(*a == v),
+                _ => assert!(false),
+            }
+            match (&spec.precision, prec) {
+                (None, None) => {}
+                (Some(CFormatPrecision::Dot), Some(None)) => {}
+                (Some(CFormatPrecision::Quantity(CFormatQuantity::FromValuesTuple)), Some(Some(None))) => {}
+                (Some(CFormatPrecision::Quantity(CFormatQuantity::Amount(a))), Some(Some(Some(v)))) => assert!(*a == v),
+                _ => assert!(false),
+            }
+            match (&spec.format_type, k) {
+                (CFormatType::Number(CNumberType::Decimal), 'd') => {}
+                (CFormatType::String(CFormatConversion::Str), 's') => {}
+                (CFormatType::Number(CNumberType::Hex(Case::Lower)), 'x') => {}
+                _ => assert!(false),
+            }
+            // exactly the specifier was consumed
+            assert!(it.peek().map(|x| x.0) == if i + 1 < len { Some(i + 1) } else { None });
+        }
+        _ => assert!(false),
+    }
+    kani::cover!(matches!(&*r, Ok(s) if s.precision.is_some() && s.min_field_width.is_some() && !s.flags.is_empty()));
+    kani::cover!(matches!(&*r, Err((CFormatErrorType::UnsupportedFormatChar(_), 3))));
+    kani::cover!(matches!(&*r, Err((CFormatErrorType::IncompleteFormat, _))));
+}
